@@ -195,29 +195,38 @@ func build() *env {
 	}
 	e := &env{scratch: scratch}
 	e.tree = treeFingerprint(repoDir)
-	if err := copyTree(filepath.Join(scratch, "repo"), repoDir, func(rel string, d fs.DirEntry) bool {
-		if d.IsDir() && (rel == ".git" || rel == "examples" || rel == ".github" || rel == "scripts") {
-			return true
+	// prepare copies the working tree and instruments the copy (noOrder: without the ordered-map-range
+	// pass, the fallback when that pass meets code it cannot rewrite soundly).
+	prepare := func(noOrder bool) {
+		os.RemoveAll(filepath.Join(scratch, "repo"))
+		if err := copyTree(filepath.Join(scratch, "repo"), repoDir, func(rel string, d fs.DirEntry) bool {
+			if d.IsDir() && (rel == ".git" || rel == "examples" || rel == ".github" || rel == "scripts") {
+				return true
+			}
+			return !d.IsDir() && strings.HasSuffix(rel, "_test.go")
+		}); err != nil {
+			cleanup(e)
+			die(2, "copy repo: %v", err)
 		}
-		return !d.IsDir() && strings.HasSuffix(rel, "_test.go")
-	}); err != nil {
-		cleanup(e)
-		die(2, "copy repo: %v", err)
+		envv := os.Environ()
+		if noOrder {
+			envv = append(envv, "INSTRUMENT_NO_ORDER=1")
+		}
+		rep := filepath.Join(scratch, "instrument.json")
+		out, err := run(scratch, envv, filepath.Join(verifDir, "bin", "instrument"),
+			"-repo", filepath.Join(scratch, "repo"), "-hooks", filepath.Join(verifDir, "hooks"), "-report", rep)
+		if err != nil {
+			cleanup(e)
+			die(2, "instrument failed: %v\n%s", err, out)
+		}
+		if b, err := os.ReadFile(rep); err == nil {
+			json.Unmarshal(b, &e.instr)
+		}
 	}
+	prepare(false)
 	if err := copyTree(filepath.Join(scratch, "sim"), filepath.Join(verifDir, "sim"), nil); err != nil {
 		cleanup(e)
 		die(2, "copy sim: %v", err)
-	}
-	// instrument
-	rep := filepath.Join(scratch, "instrument.json")
-	out, err := run(scratch, os.Environ(), filepath.Join(verifDir, "bin", "instrument"),
-		"-repo", filepath.Join(scratch, "repo"), "-hooks", filepath.Join(verifDir, "hooks"), "-report", rep)
-	if err != nil {
-		cleanup(e)
-		die(2, "instrument failed: %v\n%s", err, out)
-	}
-	if b, err := os.ReadFile(rep); err == nil {
-		json.Unmarshal(b, &e.instr)
 	}
 	// go.mod / go.sum for the harness copy
 	gomod, err := os.ReadFile(filepath.Join(verifDir, "sim", "go.mod.tmpl"))
@@ -247,6 +256,12 @@ func build() *env {
 		}
 	}
 	bout, berr := run(simDir, goEnv(), goBin, "build", "-tags", "verif", "-trimpath", "./scen/...")
+	if berr != nil && strings.Contains(bout, "verifOrder") {
+		// the ordered-map-range pass rewrote a loop over something that is not a map (any more)
+		fmt.Fprintf(os.Stderr, "check: ordered map ranges do not compile against this tree, building without them\n")
+		prepare(true)
+		bout, berr = run(simDir, goEnv(), goBin, "build", "-tags", "verif", "-trimpath", "./scen/...")
+	}
 	broken := map[string]bool{}
 	if berr != nil {
 		for _, line := range strings.Split(bout, "\n") {
@@ -269,7 +284,7 @@ func build() *env {
 	}
 	wt.WriteString(")\n\n// TestWorker is the worker entry point; it does nothing unless VSIM_MODE is set.\nfunc TestWorker(t *testing.T) { core.WorkerMain(t) }\n")
 	os.WriteFile(filepath.Join(simDir, "run", "worker_test.go"), []byte(wt.String()), 0o644)
-	out, err = run(simDir, goEnv(), goBin, "test", "-c", "-tags", "verif", "-trimpath",
+	out, err := run(simDir, goEnv(), goBin, "test", "-c", "-tags", "verif", "-trimpath",
 		"-o", e.bin, "./run")
 	if err != nil {
 		cleanup(e)
